@@ -13,10 +13,12 @@
    operations the model applies (c10_hypb, a boolean evaluated on the concrete input).  Under it
    the whole table is covariant.  The hypothesis holds for powers of two (examples) and is
    necessary: with factor 3 a consistency value changes in the last bit.  The band-pass kernel is
-   assumed linear (same sign bits for the scaled signal): k_pos k' = k_pos k. *)
+   assumed linear (same sign bits for the scaled signal): k_pos k' = k_pos k.  band_amp: the
+   envelope of the scaled run is assumed to be the scaled envelope (k_amp k' = map s (k_amp k)) and
+   s must commute with the mean over each cycle's window (c10_ampb, checkable like c10_hypb). *)
 From Coq Require Import List Arith Bool ZArith Floats.PrimFloat.
 Import ListNotations.
-From ByC Require Import Base.Result Model.Extrema Model.Zerox Model.Cycles Model.Features Proofs.Scale.
+From ByC Require Import Base.Result Base.ListAux Base.FloatBase Model.Extrema Model.Zerox Model.Cycles Model.Features Proofs.Scale Proofs.ScaleAmp.
 
 (* every sample index, duration, symmetry, consistency, monotonicity, amplitude fraction and
    label is unchanged; every voltage feature is mapped by s; errors coincide *)
@@ -73,3 +75,44 @@ Proof.
   exact (conj ScaleExamples.sc_hyp_underflow (conj ScaleExamples.sc_hyp_overflow ScaleExamples.sc_hyp_shift)).
 Qed.
 Print Assumptions C10_hypothesis_rejects_inexact_scalings.
+
+(* band_amp: every row's band_amp is the mean of the amplitude envelope over [last, next) ... *)
+Theorem C10_band_amp_is_the_mean_envelope_of_the_cycle : forall c raw k b m out,
+  compute_features c raw k b m = Ok out ->
+  Forall (fun r => band_amp (r_shape r) = fmean (zslice (k_amp k) (s_last (r_s r)) (s_next (r_s r)))) out.
+Proof. exact compute_features_band_amp. Qed.
+Print Assumptions C10_band_amp_is_the_mean_envelope_of_the_cycle.
+
+(* ... hence, when the envelope of the scaled signal is the scaled envelope and the scaling commutes with the
+   mean on the windows that occur (checked hypothesis c10_ampb), band_amp is multiplied as well - together
+   with everything the first theorem states (frow_scaled) *)
+Theorem C10_band_amp_covariant_under_checked_scaling : forall c s raw k' k b m out' out,
+  c10_hypb c s raw k b m = true -> c10_ampb c s raw k b m = true ->
+  k_pos k' = k_pos k -> k_padn k' = k_padn k -> k_amp k' = map s (k_amp k) ->
+  compute_features c raw k b m = Ok out ->
+  compute_features c (map s raw) k' b m = Ok out' ->
+  Forall2 (fun r' r => frow_scaled s r' r /\ band_amp (r_shape r') = s (band_amp (r_shape r))) out' out.
+Proof. exact c10_band_amp_checked. Qed.
+Print Assumptions C10_band_amp_covariant_under_checked_scaling.
+
+(* the mean condition follows from commutation with the float operations of the mean (every partial sum,
+   the final division); it holds for x * 4 on the example and is a genuine condition (fails for x * x) *)
+Theorem C10_mean_condition_from_operations : forall s amp r,
+  let w := zslice amp (s_last r) (s_next r) in
+  s 0%float = 0%float -> sums_on s 0%float w ->
+  (s (fsum_left w) / Z2F (Z.of_nat (length w)))%float = s (fsum_left w / Z2F (Z.of_nat (length w)))%float ->
+  mean_on s amp r.
+Proof. exact mean_on_from_sums. Qed.
+Print Assumptions C10_mean_condition_from_operations.
+
+Theorem C10_band_amp_nonvacuous :
+  c10_hypb Peak ScaleExamples.x4 ScaleExamples.sc_raw ScaleExamples.sc_k 0 ScaleExamples.sc_m = true /\
+  c10_ampb Peak ScaleExamples.x4 ScaleExamples.sc_raw ScaleExamples.sc_k 0 ScaleExamples.sc_m = true /\
+  k_amp ScaleExamples.sc_k' = map ScaleExamples.x4 (k_amp ScaleExamples.sc_k) /\
+  (exists out out', compute_features Peak ScaleExamples.sc_raw ScaleExamples.sc_k 0 ScaleExamples.sc_m = Ok out /\
+     compute_features Peak (map ScaleExamples.x4 ScaleExamples.sc_raw) ScaleExamples.sc_k' 0 ScaleExamples.sc_m = Ok out' /\
+     3 <= length out) /\
+  c10_ampb Peak (fun x => (x * x)%float) ScaleExamples.sc_raw
+    {| k_pos := k_pos ScaleExamples.sc_k; k_padn := 0; k_amp := map (fun i => Z2F (Z.of_nat i)) (seq 0 80) |} 0 ScaleExamples.sc_m = false.
+Proof. exact c10_band_amp_example. Qed.
+Print Assumptions C10_band_amp_nonvacuous.
